@@ -228,12 +228,27 @@ StructureClauses(s, l) ==
        \cup (IF valid /\ ev.ok /\ ~WTTop(ev.p, s.root, ev.j, ev.reqcls) THEN {"S_typed"} ELSE {})
        \cup (IF s.sk = "unk" /\ l = 3 /\ ev.ok /\ ~PEq(ev.p, s.ev[1].p) THEN {"X_same"} ELSE {})
 
+\* Sessions observed in the repository's own test-suite (sk = "observed") carry inputs the
+\* specification did not generate: an explicit null whose key the output omits is tolerated there
+\* (null ~ absent at omittable positions, DESIGN 4.2).
+RECURSIVE DropNulls(_, _)
+DropNulls(j, w) ==
+    CASE j.k = "obj" /\ w.k = "obj" ->
+            JObj([n \in {n \in DOMAIN j.f : ~(j.f[n].k = "null" /\ n \notin DOMAIN w.f)} |->
+                    IF n \in DOMAIN w.f THEN DropNulls(j.f[n], w.f[n]) ELSE j.f[n]])
+      [] j.k = "arr" /\ w.k = "arr" /\ Len(j.a) = Len(w.a) -> JArr([i \in DOMAIN j.a |-> DropNulls(j.a[i], w.a[i])])
+      [] OTHER -> j
+
 \* Unstructure returned
 UnstructureClauses(s, l) ==
     LET ev == s.ev[l]
         prev == s.ev[l - 1]
         T == RootType(s.root)
     IN IF ~ev.ok THEN {"U_raise"}
+       ELSE IF l = 2 /\ prev.e = "Structure" /\ s.sk = "observed"
+            THEN (IF ~Valid(prev.j, T) THEN {}
+                  ELSE LET src == DropNulls(prev.j, ev.w) IN
+                       IF Lossless(src, ev.w) /\ RT(src, ev.w, T) THEN {} ELSE {"U_lossless"})
        ELSE IF l = 2 /\ prev.e = "Structure"
             THEN (IF Lossless(prev.j, ev.w) /\ RT(prev.j, ev.w, T) THEN {} ELSE {"U_lossless"})
        ELSE IF l = 2 /\ prev.e = "Construct"
@@ -269,7 +284,7 @@ Clauses(s, l) == CASE s.ev[l].e = "Structure" -> StructureClauses(s, l)
 
 Positions(s, l, fails) ==
     LET ev == s.ev[l]  T == RootType(s.root)  rn == RootName(s.root) IN
-    (IF "U_lossless" \in fails THEN Bad(s.ev[l - 1].j, ev.w, T, rn) ELSE {})
+    (IF "U_lossless" \in fails THEN Bad(IF s.sk = "observed" THEN DropNulls(s.ev[l - 1].j, ev.w) ELSE s.ev[l - 1].j, ev.w, T, rn) ELSE {})
     \cup (IF "U_exact" \in fails THEN Bad(Wire(s.ev[l - 1].o), ev.w, T, rn) ELSE {})
     \cup (IF "U_idem" \in fails THEN Bad(s.ev[2].w, ev.w, T, rn) ELSE {})
     \cup (IF "S_typed" \in fails THEN BadWT(ev.p, T, ev.j, rn) ELSE {})
